@@ -248,9 +248,6 @@ Definition step_k (st : state) (o : op) : res (state * list bool) :=
 
 (* what is observed after every step: to_string('0','1'), count, all, any, none,
    to_ullong/to_ulong (only instantiable when Bits <= 64), cur == other *)
-Record obs := { o_string : list N; o_count : nat; o_all : bool; o_any : bool; o_none : bool;
-                o_ullong : option N; o_eq : bool }.
-
 Definition chr0 : N := 48%N.
 Definition chr1 : N := 49%N.
 
